@@ -4,6 +4,7 @@ import (
 	"time"
 
 	"github.com/karagenc/socket.io-go/internal/sync"
+	"github.com/karagenc/socket.io-go/internal/vhook"
 
 	"github.com/karagenc/socket.io-go/parser"
 	"github.com/karagenc/yeast"
@@ -68,6 +69,7 @@ func (a *sessionAwareAdapter) cleaner() {
 		time.Sleep(a.cleanerDuration)
 
 		a.mu.Lock()
+		vhook.Event("clean.start", "o", a, "now", time.Now())
 		for sessionID, session := range a.sessions {
 			if session.hasExpired(a.maxDisconnectDuration) {
 				delete(a.sessions, sessionID)
@@ -81,6 +83,7 @@ func (a *sessionAwareAdapter) cleaner() {
 				break
 			}
 		}
+		vhook.Event("clean.end", "o", a, "now", time.Now(), "ids", a.packets, "pids", a.sessions)
 		a.mu.Unlock()
 	}
 }
@@ -93,6 +96,7 @@ func (a *sessionAwareAdapter) PersistSession(session *SessionToPersist) {
 	a.mu.Lock()
 	defer a.mu.Unlock()
 	a.sessions[session.PID] = sessionWithTS
+	vhook.Event("session.persist", "o", a, "pid", session.PID, "sid", session.SID, "rooms", session.Rooms, "at", sessionWithTS.DisconnectedAt)
 }
 
 func (a *sessionAwareAdapter) RestoreSession(
@@ -103,11 +107,13 @@ func (a *sessionAwareAdapter) RestoreSession(
 	defer a.mu.Unlock()
 	sessionWithTS, ok := a.sessions[pid]
 	if !ok {
+		vhook.Event("session.restore", "o", a, "pid", pid, "offset", offset, "ok", false, "why", "nosession", "missed", []string{}, "now", time.Now())
 		return nil, false
 	}
 
 	if sessionWithTS.hasExpired(a.maxDisconnectDuration) {
 		delete(a.sessions, pid)
+		vhook.Event("session.restore", "o", a, "pid", pid, "offset", offset, "ok", false, "why", "expired", "missed", []string{}, "now", time.Now())
 		return nil, false
 	}
 
@@ -119,6 +125,7 @@ func (a *sessionAwareAdapter) RestoreSession(
 		}
 	}
 	if index == -1 {
+		vhook.Event("session.restore", "o", a, "pid", pid, "offset", offset, "ok", false, "why", "nooffset", "missed", []string{}, "now", time.Now())
 		return nil, false
 	}
 
@@ -134,6 +141,7 @@ func (a *sessionAwareAdapter) RestoreSession(
 	session = new(SessionToPersist)
 	*session = sessionWithTS.SessionToPersist
 	session.MissedPackets = missedPackets
+	vhook.Event("session.restore", "o", a, "pid", pid, "offset", offset, "ok", true, "why", "", "missed", missedPackets, "now", time.Now())
 	return session, true
 }
 
@@ -174,6 +182,7 @@ func (a *sessionAwareAdapter) Broadcast(header *parser.PacketHeader, v []any, op
 			Data:      v,
 		}
 		a.packets = append(a.packets, packet)
+		vhook.Event("log.append", "o", a, "id", id, "T", opts.Rooms, "E", opts.Except, "at", packet.EmittedAt)
 		a.mu.Unlock()
 	}
 	a.inMemoryAdapter.Broadcast(header, v, opts)
